@@ -44,6 +44,8 @@ where
 {
   pub(crate) subscriptions: HashMap<K, Arc<SubscriberList<K, T>>>,
   pub(crate) receiver_count: AtomicUsize,
+  /// Live sender handles; the mailboxes are disconnected when the last one goes.
+  pub(crate) sender_count: AtomicUsize,
 }
 
 impl<K, T> fmt::Debug for SpmcTopicDispatcher<K, T>
@@ -75,6 +77,7 @@ where
     Self {
       subscriptions: HashMap::new(),
       receiver_count: AtomicUsize::new(0),
+      sender_count: AtomicUsize::new(1),
     }
   }
 }
